@@ -3,6 +3,7 @@
 package c02
 
 import (
+	"context"
 	"encoding/json"
 	"errors"
 	"fmt"
@@ -120,10 +121,15 @@ type faultReader struct {
 	k    int // fail after k bytes
 	pos  int
 	err  error
+	// onFail runs when the fault point is reached (cancels the request context)
+	onFail func()
 }
 
 func (f *faultReader) Read(p []byte) (int, error) {
 	if f.pos >= f.k {
+		if f.onFail != nil {
+			f.onFail()
+		}
 		return 0, f.err
 	}
 	n := copy(p, f.data[f.pos:f.k])
@@ -183,7 +189,7 @@ func bodyFaults(c *fw.Ctx) {
 					continue
 				}
 				for _, k := range offsets {
-					for _, ek := range []string{"unexpected-eof", "other"} {
+					for _, ek := range []string{"unexpected-eof", "other", "context-canceled"} {
 						idx++
 						if !c.Mine(idx) {
 							continue
@@ -219,10 +225,19 @@ func execFault(c *fw.Ctx, e *fsx.Env, fc faultCase) {
 		return
 	}
 	ferr := io.ErrUnexpectedEOF
-	if fc.ErrKind == "other" {
+	var onFail func()
+	switch fc.ErrKind {
+	case "other":
 		ferr = errors.New("verif: injected body read error")
+	case "context-canceled":
+		// the request context is cancelled while the body is being read
+		ferr = context.Canceled
+		ctx, cancel := context.WithCancel(sreq.Context())
+		sreq = sreq.WithContext(ctx)
+		defer cancel()
+		onFail = cancel
 	}
-	sreq.Body = &faultReader{data: data, k: fc.FailAt, err: ferr}
+	sreq.Body = &faultReader{data: data, k: fc.FailAt, err: ferr, onFail: onFail}
 	sreq.ContentLength = int64(fc.Len)
 	if fc.Cond == "if-match-current" {
 		if fi, _ := webdav.LocalFileSystem(e.Root).Stat(nil, "/t"); fi != nil {
